@@ -28,6 +28,7 @@ type execPlan struct {
 	Exit        int
 	MetricsKind string // none | valid | truncated | wrongtype
 	PatchKind   string // none | valid | invalid
+	Signal      string // the process ends by a signal instead of exiting with Exit
 	Marker      string
 }
 
@@ -78,6 +79,9 @@ func runHookExecWL(e *Env) {
 			p.Marker = "m" + strconv.Itoa(nmark)
 			if wl.Bias(1, 5) {
 				p.Exit = []int{1, 3, 127}[wl.Choose(3)]
+				if wl.Bias(1, 3) {
+					p.Signal = []string{"KILL", "TERM", "SEGV"}[wl.Choose(3)] // dies from a signal after writing its outputs
+				}
 			}
 			p.MetricsKind = []string{"none", "valid", "valid", "truncated", "wrongtype"}[wl.Choose(5)]
 			p.PatchKind = []string{"none", "none", "valid", "invalid"}[wl.Choose(4)]
@@ -97,6 +101,7 @@ func runHookExecWL(e *Env) {
 			x.Patch = `{"operation":"Delete","kind":"ConfigMap"}`
 		}
 		x.ExitCode = p.Exit
+		x.Signal = p.Signal
 		x.Fail = p.Exit != 0
 		plansByExec[x.N] = p
 	}
